@@ -1,17 +1,20 @@
-# C05 witness (analysed statically, never executed): comprehension iteration variables are filed under the
-# enclosing scope's locals.
+# C05 witness (analysed statically, never executed): the region after a comprehension joins "before the
+# comprehension" with the comprehension's own regions, so the iteration variable stays visible after/outside the
+# comprehension as a possibly-bound alternative owned by the enclosing scope.  (Since the comprehension variable is
+# no longer a local of the enclosing scope it does not mask outer names and does not stop nonlocal/free-variable
+# owner lookup any more; only this visibility remains.)
 n = 0
 k = 0
 
 
 def after(y):
-    # (i) visible after the comprehension: CPython reads the module's n here
+    # visible after the comprehension: CPython reads the module's n here
     [n for n in y]
     return n
 
 
 def nested(y):
-    # (i) visible to a nested scope: CPython reads the module's k in inner()
+    # visible to a nested scope: CPython reads the module's k in inner()
     [k for k in y]
 
     def inner():
@@ -23,13 +26,6 @@ def outer():
     m = 1
 
     def middle(y):
-        # (iii) free-variable / nonlocal owner lookup stops at middle(), which has m only as an iteration variable
         [m for m in y]
-        print(m)            # CPython: outer()'s m
-
-        def inner():
-            nonlocal m
-            m = 2
-            return m
-        return inner
+        return m            # CPython: outer()'s m (a closure variable of middle)
     return middle
